@@ -41,10 +41,39 @@ def decision_table(ctx, prog, flows, effects, add_edge, helper, hcalls, repl):
     hf = flows.of(helper)
     # parameter roles of the helper, from the provenance of the arguments at its call sites
     roles = {}
-    for t in hcalls:
+    pn0 = helper.param_names()
+
+    def flag_operands(t):
+        """(atom name inside the helper, operand in add_edge) for every boolean the helper receives: plain bool
+        arguments, and the bool fields of a struct argument built in add_edge (a private `Policy { .. }`)"""
+        out = []
         for i, a in enumerate(t.args):
-            if a.place is None or a.place.ty != "bool":
+            if a.place is None or i >= len(pn0):
                 continue
+            if a.place.ty == "bool":
+                out.append((pn0[i], a))
+                continue
+            # a struct passed by value / by copy: find the aggregate that built it
+            l = a.place.local
+            d = None
+            for _ in range(5):
+                d = fl.single_def(l)
+                if d is None or getattr(d, "rv", None) is None:
+                    d = None
+                    break
+                if d.rv.k == "use" and d.rv.ops and d.rv.ops[0].place is not None and not d.rv.ops[0].place.proj:
+                    l = d.rv.ops[0].place.local
+                    continue
+                break
+            if d is not None and d.rv.k == "aggr" and d.rv.j.get("ak") == "adt" and not a.place.proj:
+                for fname, o in zip(d.rv.j.get("fields") or [], d.rv.ops):
+                    ty = o.place.ty if o.place is not None else (o.c or {}).get("ty")
+                    if ty == "bool":
+                        out.append(("%s.%s" % (pn0[i], fname), o))
+        return out
+
+    for t in hcalls:
+        for (i, a) in flag_operands(t):
             sl = flows.slice(add_edge.path, fl._op_reads(a), up=False, down=False, data_only=True)
             fields = {".".join(f for f in n[2] if f != "*") for (bp, n) in sl if n[0] == "SRC"}
             calls = set()
@@ -70,11 +99,10 @@ def decision_table(ctx, prog, flows, effects, add_edge, helper, hcalls, repl):
                 role = "keep_first"
             if role:
                 roles.setdefault(i, set()).add(role)
-    pn = helper.param_names()
     by_role = {}
     for i, rs in roles.items():
-        if len(rs) == 1 and i < len(pn):
-            by_role[next(iter(rs))] = pn[i]
+        if len(rs) == 1:
+            by_role[next(iter(rs))] = i
     need = {"exists", "multi"}
     if not need <= set(by_role) or not ({"keep_last", "keep_first"} & set(by_role)):
         ctx.violation("R-C03-6", "roles", "the helper that updates the traversal cache does not receive (pair exists, multi_edges, KeepLast/KeepFirst test) from add_edge: got %s -- the cache cannot follow the dedupe policy" % sorted(by_role), loc_str(helper.span))
